@@ -102,7 +102,11 @@ Record shapes := mkShapes {
   sh_stream_close_flushes : bool;    (* StreamWriter.close calls a flush before closing *)
   sh_split_ge : bool;                (* SplitWriter.write: true = `written >= count`, false = `written > count` *)
   sh_split_roll : list rollstep;     (* the statements of that `if`, in order *)
-  sh_rotate_counter : bool           (* rotate_existing_file appends a counter to the rotated name until it is free *)
+  sh_rotate_counter : bool;          (* rotate_existing_file appends a counter to the rotated name until it is free *)
+  (* SplitWriter.__init__: `self.is_stdout = parsed.netloc in (...) and parsed.path == ...`: the values each part of
+     urlparse(self.path) is tested against (None: that part is not tested) *)
+  sh_split_stdout_netloc : option (list string);
+  sh_split_stdout_path : option (list string)
 }.
 
 (* ------------------------------------------------------------------------------------------------ *)
@@ -366,7 +370,15 @@ Fixpoint split_roll (k : adapter) (st : sstate) (steps : list rollstep) : sstate
       match o with Ok => split_roll k st' steps' | Raised => (st', Raised) end
   end.
 
-Definition split_write (k : adapter) (count : nat) (st : sstate) (r : rec) : sstate * outcome :=
+(* SplitWriter.__init__: is the target stdout?  (netloc, path) = urlparse(self.path) *)
+Definition part_test (vals : option (list string)) (x : string) : bool :=
+  match vals with None => true | Some vs => existsb (String.eqb x) vs end.
+Definition split_is_stdout (netloc path : string) : bool :=
+  part_test (sh_split_stdout_netloc sh) netloc && part_test (sh_split_stdout_path sh) path.
+
+(* [stdout]: self.is_stdout -- write() then returns right after the inner write: nothing is counted, nothing rolls over,
+   and _next_path returned self.path unchanged (one unsuffixed output) *)
+Definition split_write (k : adapter) (count : nat) (stdout : bool) (st : sstate) (r : rec) : sstate * outcome :=
   match s_cur st with
   | None => (st, Raised)
   | Some (i, w) =>
@@ -375,6 +387,7 @@ Definition split_write (k : adapter) (count : nat) (st : sstate) (r : rec) : sst
       match o with
       | Raised => (st1, Raised)
       | Ok =>
+          if stdout then (st1, Ok) else
           let st2 := mkS (s_cur st1) (S (s_written st1)) (s_fc st1) (s_done st1) in
           if (if sh_split_ge sh then Nat.leb count (s_written st2) else Nat.ltb count (s_written st2))
           then split_roll k st2 (sh_split_roll sh)
@@ -392,28 +405,28 @@ Fixpoint split_calls (k : adapter) (st : sstate) (cs : list mcall) : sstate * ou
       end
   end.
 
-Definition split_step (k : adapter) (count : nat) (st : sstate) (o : op) : sstate * outcome :=
+Definition split_step (k : adapter) (count : nat) (stdout : bool) (st : sstate) (o : op) : sstate * outcome :=
   match o with
-  | Write r => split_write k count st r
+  | Write r => split_write k count stdout st r
   | Flush => split_flush k st
   | Close => split_close k st
   | WithExit => split_calls k st (sh_exit sh)
   | Del => split_calls k st (sh_del sh)
   end.
 
-Fixpoint split_run (k : adapter) (count : nat) (st : sstate) (h : list op) : sstate * list rec :=
+Fixpoint split_run (k : adapter) (count : nat) (stdout : bool) (st : sstate) (h : list op) : sstate * list rec :=
   match h with
   | [] => (st, [])
   | o :: h' =>
-      let (st', out) := split_step k count st o in
-      let (st'', acc) := split_run k count st' h' in
+      let (st', out) := split_step k count stdout st o in
+      let (st'', acc) := split_run k count stdout st' h' in
       (st'', match o, out with Write r, Ok => r :: acc | _, _ => acc end)
   end.
 
-Fixpoint split_outcomes (k : adapter) (count : nat) (st : sstate) (h : list op) : list outcome :=
+Fixpoint split_outcomes (k : adapter) (count : nat) (stdout : bool) (st : sstate) (h : list op) : list outcome :=
   match h with
   | [] => []
-  | o :: h' => let (st', out) := split_step k count st o in out :: split_outcomes k count st' h'
+  | o :: h' => let (st', out) := split_step k count stdout st o in out :: split_outcomes k count stdout st' h'
   end.
 
 (* ------------------------------------------------------------------------------------------------ *)
